@@ -111,6 +111,9 @@ def generate(prop, rng, tier):
                              'scribble', 'raw', 'deriv_mutate'],
                             [3, 5, 1, 1, 1, 1, 0.6])[0]
         op = {'t': t, 'i': rng.randint(0, 2)}
+        if t == 'oop' and not c10:
+            # the caller reuses the element it got back as a work buffer
+            op['scribble_result'] = rng.random() < 0.3
         if t == 'deriv_mutate':
             op['j'] = rng.randint(0, 2)
         if t in ('ip', 'scribble', 'reject_out'):
@@ -426,6 +429,21 @@ class Run(object):
                       '{:.3g}'.format(self.k1, self.k2, d))
         self.ctx.event('oop', i, self.dig(y))
         self.note(i, 'oop', self.k1)
+        if o.get('scribble_result') and SP.is_elem(y):
+            # the caller owns what op(x) returned and overwrites it (seed
+            # e03: an operator that hands out the same cached object again
+            # would return the caller's numbers next time).  Not when the
+            # result is a view of a pool element (RealPart returns x).
+            from ..core import elem_arrays
+            ya = elem_arrays(y)
+            shares = any(np.shares_memory(a_, b_)
+                         for x_ in self.xs if SP.is_elem(x_)
+                         for a_ in ya for b_ in elem_arrays(x_))
+            if not shares:
+                fill_elem(y, 'huge', salt=9)
+                self.held = [h for h in self.held if h[1] is not y]
+                self.ctx.fired('caller-overwrites-returned-result')
+                return y
         if SP.is_elem(y) and len(self.held) < 6:
             # the caller keeps the result: later calls must not change it
             self.held.append((i, y, elem_snapshot(y)))
